@@ -70,6 +70,30 @@ def nest (U : Mach α) (C : Chain α β) (comb : α → β → γ) : Mach γ whe
 /-- what `nest` should yield -/
 def nestSpec (f : α → List β) (comb : α → β → γ) (l : List α) : List γ := l.flatMap fun a => (f a).map (comb a)
 
+/-- … with the operator numbering what it yields per item (`op_format::state::m_pos`, reset when the next item is taken:
+    `sc.reset <state> (m_ll)`) -/
+abbrev NumSt (U : Mach α) (C : Chain α β) := U.σ × Option α × C.M.σ × Nat
+
+inductive NumNext (U : Mach α) (C : Chain α β) (comb : α → β → Nat → γ) : NumSt U C → Option γ → NumSt U C → Prop
+  | pull {u u' : U.σ} {c : C.M.σ} {a : α} {n : Nat} {r : Option γ} {st' : NumSt U C} : U.next u (some a) u' →
+      NumNext U C comb (u', some a, C.feed c a, 0) r st' → NumNext U C comb (u, none, c, n) r st'
+  | endUp {u u' : U.σ} {c : C.M.σ} {n : Nat} : U.next u none u' → NumNext U C comb (u, none, c, n) none (u', none, c, n)
+  | yield {u : U.σ} {c c' : C.M.σ} {a : α} {y : β} {n : Nat} : C.M.next c (some y) c' →
+      NumNext U C comb (u, some a, c, n) (some (comb a y n)) (u, some a, c', n + 1)
+  | dry {u : U.σ} {c c' : C.M.σ} {a : α} {n : Nat} {r : Option γ} {st' : NumSt U C} : C.M.next c none c' →
+      NumNext U C comb (u, none, c', n) r st' → NumNext U C comb (u, some a, c, n) r st'
+
+def nestNum (U : Mach α) (C : Chain α β) (comb : α → β → Nat → γ) : Mach γ where
+  σ := NumSt U C
+  next := NumNext U C comb
+
+/-- number the elements of a list from `n` -/
+def numFrom (g : β → Nat → γ) : Nat → List β → List γ
+  | _, [] => []
+  | n, y :: ys => g y n :: numFrom g (n + 1) ys
+
+def numSpec (f : α → List β) (comb : α → β → Nat → γ) (l : List α) : List γ := l.flatMap fun a => numFrom (comb a) 0 (f a)
+
 /-- a one-shot upstream: the origin of a chain, holding the item it was fed -/
 def originSrc (α : Type) : Mach α where
   σ := Option α
